@@ -10,7 +10,10 @@ import RsMatterVerif.Props.C04
   in which no copy arrives more than 16 counters behind the newest accepted one: `timelyRx`),
   `at_most_once_timely` (both): every counter is handed to the exchange layer at most once, for every
   sequence of received headers; `unsecured_not_at_most_once`: why the unsecured statement needs its
-  hypothesis (the restart rule of the unsecured window);
+  hypothesis (the restart rule of the unsecured window); `at_most_once_with_own_traffic`: the same for
+  every history in which the node's own sends (piggy-backed acknowledgements, retransmissions, give-ups),
+  exchange opens / drops and received messages with matching / stale / no acknowledgement interleave;
+  `stale_ack_drops_fresh_message` (observation: the mismatch rule loses a fresh message);
 * give-up, whole histories: `gives_up_on_every_schedule` (every interleaving of back-off expiries
   and received messages none of which acknowledges the pending counter: exactly `budget − count`
   further transmissions, then `TxTimeout`, nothing pending afterwards),
@@ -211,6 +214,215 @@ theorem unsecured_not_at_most_once :
     (runRx ({ uid := 0, ctr := 0, mode := .pase } : Sess) [] [] [h 5, h 30, h 5]).2.2 = [30, 5] := by
   intro h
   refine ⟨by decide, by decide⟩
+
+/-! ### … with the node's own traffic interleaved (both directions on the exchange)
+
+`runRx` only receives. On a real exchange the node also sends — reliable messages with piggy-backed
+acknowledgements, retransmissions, stand-alone acknowledgements — and drops / opens exchanges, and
+the received messages carry acknowledgements that match, or do not match, what the node is waiting
+for (`ReliableMessage::post_recv` answers `Duplicate` on a mismatch). None of this touches the
+receive window: at-most-once holds for every such history. -/
+
+/-- what happens on one session: a message arrives, or the node itself acts -/
+inductive NOp
+  | rx (h : RxHdr) (now : Nat)
+  | tx (idx : Option Nat) (rel : Bool) (ha sai : Option Nat)
+  | open_ (id : Nat)
+  | close (i : Nat)
+
+def NOp.step (s : Sess) : NOp → Sess
+  | .rx h now => (s.postRecv h now).1
+  | .tx idx rel ha sai => (s.preSend idx rel ha sai).1
+  | .open_ id => match s.addExch id .io with
+    | some (s', _) => s'
+    | none => s
+  | .close i => (s.removeExch i).1
+
+/-- counters handed to the exchange layer (`post_recv = Ok`), newest first -/
+def runN : Sess → List Nat → List NOp → Sess × List Nat
+  | s, del, [] => (s, del)
+  | s, del, op :: rest =>
+    let del' := match op with
+      | .rx h now => (match (s.postRecv h now).2 with
+        | .ok _ => h.ctr :: del
+        | .error _ => del)
+      | _ => del
+    runN (op.step s) del' rest
+
+/-- the received headers of a history, with the session state each of them meets -/
+def timelyN : Sess → List NOp → Prop
+  | _, [] => True
+  | s, op :: rest =>
+    (match op with
+      | .rx h _ => s.mode.enc = true ∨ TwoNode.timelyFor s.rx h.ctr = true
+      | _ => True) ∧ timelyN (op.step s) rest
+
+theorem own_step_keeps_window (s : Sess) (op : NOp) (h : ∀ hd now, op ≠ .rx hd now) :
+    (op.step s).rx = s.rx ∧ (op.step s).mode = s.mode := by
+  have hset : ∀ (t : Sess) i m, (t.setMrp i m).rx = t.rx ∧ (t.setMrp i m).mode = t.mode := by
+    intro t i m; unfold Sess.setMrp; split <;> exact ⟨rfl, rfl⟩
+  cases op with
+  | rx hd now => exact absurd rfl (h hd now)
+  | tx idx rel ha sai =>
+    simp only [NOp.step]
+    unfold Sess.preSend
+    cases idx with
+    | none => exact ⟨rfl, rfl⟩
+    | some i =>
+      simp only
+      split
+      · exact ⟨rfl, rfl⟩
+      · rename_i e he
+        generalize (e.mrp.preSend _ rel ha sai) = P
+        obtain ⟨m, oa, err⟩ := P
+        cases hrc : Option.map (fun x => x.ctr) e.mrp.retrans <;> (
+          cases err with
+          | none => exact ⟨(hset _ _ _).1, (hset _ _ _).2⟩
+          | some er =>
+            cases er <;> simp only <;> first
+              | exact ⟨(hset _ _ _).1, (hset _ _ _).2⟩
+              | (split <;> exact ⟨(hset _ _ _).1, (hset _ _ _).2⟩))
+  | open_ id =>
+    simp only [NOp.step]
+    cases ha : s.addExch id .io with
+    | none => exact ⟨rfl, rfl⟩
+    | some p =>
+      obtain ⟨s', i⟩ := p
+      unfold Sess.addExch at ha
+      simp only at ha
+      split at ha
+      · simp only [Option.some.injEq, Prod.mk.injEq] at ha; obtain ⟨h1, _⟩ := ha; subst h1; exact ⟨rfl, rfl⟩
+      · split at ha
+        · simp only [Option.some.injEq, Prod.mk.injEq] at ha; obtain ⟨h1, _⟩ := ha; subst h1; exact ⟨rfl, rfl⟩
+        · simp at ha
+  | close i =>
+    simp only [NOp.step]
+    unfold Sess.removeExch
+    split
+    · exact ⟨rfl, rfl⟩
+    · split <;> exact ⟨rfl, rfl⟩
+
+theorem runN_facts (ops : List NOp) : ∀ (s : Sess) (acc del : List Nat),
+    timelyN s ops → C04.Inv s.rx acc → acc.Nodup → del.Sublist acc → (runN s del ops).2.Nodup := by
+  induction ops with
+  | nil => intro s acc del _ _ hn hsub; exact List.Nodup.sublist hsub hn
+  | cons op rest ih =>
+    intro s acc del htim hinv hn hsub
+    cases op with
+    | rx h now =>
+      simp only [runN, NOp.step]
+      have hpr := postRecv_rx_mode s h now
+      have hplain : Dedup.postRecv s.rx h.ctr s.mode.enc false = Dedup.postRecvPlain s.rx h.ctr true := by
+        have := TwoNode.window_timely s.rx h.ctr s.mode.enc htim.1
+        simpa [Dedup.postRecv, TwoNode.window] using this
+      have href := C04.step_refines s.rx acc h.ctr hinv
+      rw [← hplain] at href
+      cases hd : (Dedup.postRecv s.rx h.ctr s.mode.enc false).2 with
+      | false =>
+        rw [hd] at href
+        simp only [Bool.false_eq_true, ↓reduceIte] at href
+        cases hr : (s.postRecv h now).2 with
+        | ok b => have := hpr.2.2 b hr; rw [hd] at this; cases this
+        | error e =>
+          simp only
+          exact ih _ acc del htim.2 (by rw [hpr.1]; exact href.2) hn hsub
+      | true =>
+        rw [hd] at href
+        simp only [↓reduceIte] at href
+        have hnot : h.ctr ∉ acc := by
+          intro hin
+          have := href.1
+          rw [C04.spec_false_mem acc h.ctr hin] at this
+          cases this
+        cases hr : (s.postRecv h now).2 with
+        | ok b =>
+          simp only
+          exact ih _ (h.ctr :: acc) (h.ctr :: del) htim.2 (by rw [hpr.1]; exact href.2)
+            (List.nodup_cons.2 ⟨hnot, hn⟩) (List.Sublist.cons_cons _ hsub)
+        | error e =>
+          simp only
+          exact ih _ (h.ctr :: acc) del htim.2 (by rw [hpr.1]; exact href.2)
+            (List.nodup_cons.2 ⟨hnot, hn⟩) (List.Sublist.cons _ hsub)
+    | tx idx rel ha sai =>
+      have hk := own_step_keeps_window s (.tx idx rel ha sai) (fun _ _ h => by cases h)
+      simp only [runN]
+      exact ih _ acc del htim.2 (by rw [hk.1]; exact hinv) hn hsub
+    | open_ id =>
+      have hk := own_step_keeps_window s (.open_ id) (fun _ _ h => by cases h)
+      simp only [runN]
+      exact ih _ acc del htim.2 (by rw [hk.1]; exact hinv) hn hsub
+    | close i =>
+      have hk := own_step_keeps_window s (.close i) (fun _ _ h => by cases h)
+      simp only [runN]
+      exact ih _ acc del htim.2 (by rw [hk.1]; exact hinv) hn hsub
+
+theorem timelyN_secure (ops : List NOp) : ∀ (s : Sess), s.mode.enc = true → timelyN s ops := by
+  induction ops with
+  | nil => intro s _; trivial
+  | cons op rest ih =>
+    intro s henc
+    refine ⟨?_, ih _ ?_⟩
+    · cases op <;> first | exact Or.inl henc | trivial
+    · cases op with
+      | rx h now => simp only [NOp.step]; rw [(postRecv_rx_mode s h now).2.1]; exact henc
+      | tx idx rel ha sai => rw [(own_step_keeps_window s _ (fun _ _ h => by cases h)).2]; exact henc
+      | open_ id => rw [(own_step_keeps_window s _ (fun _ _ h => by cases h)).2]; exact henc
+      | close i => rw [(own_step_keeps_window s _ (fun _ _ h => by cases h)).2]; exact henc
+
+/-- **At most once, with traffic in both directions**: on a fresh secure session, for every history of
+received messages (any acknowledgement fields: matching, stale, none; reliable or not; any exchange)
+interleaved with the node's own sends through any slot (reliable messages with piggy-backed
+acknowledgements, retransmissions, give-ups, stand-alone acknowledgements), exchanges opened and
+dropped: no counter reaches the exchange layer twice. (Unsecured sessions: the same under `timelyN`,
+`runN_facts`.) -/
+theorem at_most_once_with_own_traffic (s : Sess) (ops : List NOp) (henc : s.mode.enc = true)
+    (hfresh : s.rx = Dedup.RxState.unsynced) : (runN s [] ops).2.Nodup :=
+  runN_facts ops s [] [] (timelyN_secure ops s henc) (by rw [hfresh]; exact inv_unsynced) List.nodup_nil
+    (List.Sublist.refl _)
+
+/-- non-vacuity: request received (exchange opened), response sent reliably with the piggy-backed
+acknowledgement, the request's retransmission arrives (rejected), a message with a stale
+acknowledgement arrives (`Duplicate` from the reliability layer: not handed over), the matching
+acknowledgement arrives -/
+example :
+    let h (c : Nat) (a : Option Nat) : RxHdr := { ctr := c, exch := 1, initiator := true, ack := a, reliable := true, newOk := true }
+    (runN ({ uid := 0, ctr := 70, mode := .case } : Sess) []
+      [.rx (h 5 none) 0, .tx (some 0) true none none, .rx (h 5 none) 1, .rx (h 6 (some 69)) 2, .rx (h 7 (some 70)) 3]).2 = [7, 5] := by
+  decide
+
+/-- **Observation (the mismatch rule loses a fresh message).** An exchange waits for the
+acknowledgement of its message `r.ctr`; a message with a NEW counter arrives on it whose
+acknowledgement field names another counter. `ReliableMessage::post_recv` answers `Duplicate`
+("ignore the ACK and not process this message any further, as it is a duplicate" — but the session's
+receive window has just accepted the counter as new): the message is not handed to the application,
+the window remembers its counter — every retransmission of it will be rejected as a duplicate as well —
+and `handle_rx_packet` answers a `Duplicate` of a reliable message with a stand-alone
+acknowledgement, so the peer's call succeeds. The Matter text lets a non-matching acknowledgement be
+ignored and the message be processed. Needs both sides sending on one exchange without waiting for
+each other (a stale acknowledgement on a fresh message); "success ⇒ the peer's STACK received it"
+still holds, "… its application" does not. Documented in `docs/C09.md`, not flagged. -/
+theorem stale_ack_drops_fresh_message (s : Sess) (h : RxHdr) (now i k : Nat) (e : Exch) (r : Retrans)
+    (hw : (Dedup.postRecv s.rx h.ctr s.mode.enc false).2 = true) (hget : s.getExchForRx h = some i)
+    (hs : s.slot i = some e) (hr : e.mrp.retrans = some r) (hack : h.ack = some k) (hk : k ≠ r.ctr) :
+    (s.postRecv h now).2 = .error .duplicate ∧
+    (s.postRecv h now).1.rx = (Dedup.postRecv s.rx h.ctr s.mode.enc false).1 ∧
+    ∀ j, (s.postRecv h now).1.slot j = s.slot j := by
+  have hp := (postRecv_pending e.mrp r h.ctr h.ack h.reliable now hr).2.1 k hack hk
+  refine ⟨?_, (postRecv_rx_mode s h now).1, ?_⟩
+  · unfold Sess.postRecv
+    simp only [hw, Bool.not_true, Bool.false_eq_true, ↓reduceIte]
+    have hget' : ({ s with rx := (Dedup.postRecv s.rx h.ctr s.mode.enc false).1 } : Sess).getExchForRx h = some i := hget
+    have hs' : ({ s with rx := (Dedup.postRecv s.rx h.ctr s.mode.enc false).1 } : Sess).slot i = some e := hs
+    simp only [hget', hs', hp]
+  · have hspec := postRecv_effect s h now
+    unfold RecvSpec at hspec
+    have : (s.postRecv h now).2 = .error .duplicate := by
+      unfold Sess.postRecv
+      simp only [hw, Bool.not_true, Bool.false_eq_true, ↓reduceIte]
+      have hget' : ({ s with rx := (Dedup.postRecv s.rx h.ctr s.mode.enc false).1 } : Sess).getExchForRx h = some i := hget
+      have hs' : ({ s with rx := (Dedup.postRecv s.rx h.ctr s.mode.enc false).1 } : Sess).slot i = some e := hs
+      simp only [hget', hs', hp]
+    exact hspec.2.2 _ this
 
 /-! ## Give-up -/
 
